@@ -165,7 +165,7 @@ struct Ctx {
 	}
 	template<class A,class B> void fail(const std::string& cls,const A& got,const B& want){ fail(cls,show(got),show(want)); }
 	void cls(const char* name){ cur().classes[name]++; }
-	void ratio(const char* name,double r){ if(!(r==r)) return; double& m=cur().ratios[name]; if(r>m) m=r; }
+	void ratio(const char* name,double r){ if(!(r==r)) return; if(r>1e300) r=1e300; double& m=cur().ratios[name]; if(r>m) m=r; }
 };
 
 static inline bool all_zero(const void* p,size_t n){ const u8* b=(const u8*)p; for(size_t i=0;i<n;i++) if(b[i]) return false; return true; }
